@@ -12,7 +12,7 @@ from __future__ import annotations
 import ast
 
 from .. import util
-from ..core import walk_no_nested
+from ..core import norm, walk_no_nested
 from ..report import rule
 
 CF = "claripy/frontend/composite_frontend.py"
@@ -50,6 +50,19 @@ def c15_unsatflag(R):
             continue
         n += 1
         flags = {x.value.id for x in ast.walk(fn) if isinstance(x, ast.Attribute) and x.attr == "_unsat" and isinstance(x.ctx, ast.Load) and isinstance(x.value, ast.Name)}
+        # ... or in a private helper that is handed the operand (one that was not inlined: several exits)
+        helpers = util.methods_of(cls)
+        for c in ast.walk(fn):
+            if isinstance(c, ast.Call) and isinstance(c.func, ast.Attribute) and isinstance(c.func.value, ast.Name) and c.func.value.id == "self" and c.func.attr in helpers and c.func.attr != name:
+                h = helpers[c.func.attr]
+                hps = [a.arg for a in h.args.args]
+                read_in_h = {x.value.id for x in ast.walk(h) if isinstance(x, ast.Attribute) and x.attr == "_unsat" and isinstance(x.ctx, ast.Load) and isinstance(x.value, ast.Name)}
+                rebound = {t.id for st in ast.walk(h) if isinstance(st, ast.Assign) for t in st.targets if isinstance(t, ast.Name)}
+                if hps and hps[0] in read_in_h:
+                    flags.add("self")
+                for hp, arg in zip(hps[1:], c.args):
+                    if hp in read_in_h - rebound and isinstance(arg, ast.Name):
+                        flags.add(arg.id)
         # `merged = self.blank_copy()` style locals that the method fills itself are not operands
         own = {st.targets[0].id for st in walk_no_nested(fn) if isinstance(st, ast.Assign) and len(st.targets) == 1 and isinstance(st.targets[0], ast.Name) and isinstance(st.value, ast.Call) and isinstance(st.value.func, ast.Attribute) and st.value.func.attr in ("blank_copy", "branch", "copy")}
         # operands are `self` and what loop variables range over; names do not matter (helpers are inlined with their
@@ -501,29 +514,55 @@ def c13_splitfresh(R):
     tree = R.tree
     m = tree.mod(HYB_)
     cls = tree.cls(HYB_, "HybridFrontend")
+    methods = util.methods_of(cls)
     n = 0
+
+    def is_ctor(c):
+        return isinstance(c, ast.Call) and ((isinstance(c.func, ast.Name) and c.func.id == cls.name) or ast.unparse(c.func) in ("type(self)", "self.__class__"))
+
+    def assigned_in(stmts):
+        return {t.id for st in stmts for x in ast.walk(st) if isinstance(x, ast.Assign) for t in x.targets if isinstance(t, ast.Name)}
+
+    def per_part(a, fresh):
+        """is the argument made for this part: a loop variable / a local made in the loop, or a call's fresh result"""
+        if isinstance(a, ast.Name):
+            return a.id in fresh
+        return isinstance(a, ast.Call)
+
     for name in ("split",):
-        fn = util.methods_of(cls).get(name)
+        fn = methods.get(name)
         if fn is None:
             continue
+        sites = []  # (constructor call, names that are per part there, description)
         for loop in (x for x in ast.walk(fn) if isinstance(x, (ast.For, ast.comprehension))):
-            body = loop.body if isinstance(loop, ast.For) else []
-            ctor = [c for st in body for c in ast.walk(st) if isinstance(c, ast.Call) and isinstance(c.func, ast.Name) and c.func.id in (cls.name,) or (isinstance(c, ast.Call) and ast.unparse(c.func) in ("type(self)", "self.__class__"))] if body else []
-            for c in ctor:
-                for a in c.args:
-                    if not isinstance(a, ast.Name):
-                        continue
-                    n += 1
-                    loop_var = {x.id for x in ast.walk(loop.target) if isinstance(x, ast.Name)}
-                    made_inside = a.id in loop_var or any(isinstance(st, ast.Assign) and any(isinstance(t, ast.Name) and t.id == a.id for t in st.targets) for st in body)
-                    R.check(
-                        made_inside,
-                        m,
-                        c,
-                        f"{name}: each part gets a sub-frontend made for it",
-                        f"HybridFrontend.{name} builds every part with `{a.id}`, which is created outside the loop over the parts: all parts "
-                        f"share one approximate frontend holding every part's constraints, and a part's exact=False query excludes "
-                        f"values that exist under its own constraints",
-                        construct=f"{name}: sub-frontend shared between the parts",
-                    )
+            loop_var = {x.id for x in ast.walk(loop.target) if isinstance(x, ast.Name)}
+            if isinstance(loop, ast.For):
+                region = loop.body
+            else:
+                comp = getattr(loop, "_parent", None)
+                region = [getattr(comp, "elt", None)] if getattr(comp, "elt", None) is not None else []
+            fresh = loop_var | assigned_in(region)
+            for c in (c for st in region for c in ast.walk(st) if isinstance(c, ast.Call)):
+                if is_ctor(c):
+                    sites.append((c, fresh))
+                elif isinstance(c.func, ast.Attribute) and isinstance(c.func.value, ast.Name) and c.func.value.id == "self" and c.func.attr in methods:
+                    # a helper that builds the part: its parameters are per part when the arguments handed to it are
+                    h = methods[c.func.attr]
+                    hps = [p.arg for p in h.args.args][1:]
+                    hfresh = {hp for hp, arg in zip(hps, c.args) if per_part(arg, fresh)} | assigned_in(h.body)
+                    for hc in (x for x in ast.walk(h) if is_ctor(x)):
+                        sites.append((hc, hfresh))
+        for c, fresh in sites:
+            for a in c.args:
+                n += 1
+                R.check(
+                    per_part(a, fresh),
+                    m,
+                    c,
+                    f"{name}: each part gets a sub-frontend made for it",
+                    f"HybridFrontend.{name} builds every part with `{norm(a)[:50]}`, which is not made inside the loop over the parts: all "
+                    f"parts share one approximate frontend holding every part's constraints, and a part's exact=False query excludes "
+                    f"values that exist under its own constraints",
+                    construct=f"{name}: sub-frontend shared between the parts",
+                )
     R.need(n >= 1, "HybridFrontend.split: no part construction found")
